@@ -305,21 +305,25 @@ def to_str(component: BinaryStr) -> str:
         return f"sha256digest={component[offset:].hex()}"
     elif typ == TYPE_PARAMETERS_SHA256:
         return f"params-sha256={component[offset:].hex()}"
-    elif typ in ALTERNATE_URI_TYPE:
-        return ALTERNATE_URI_TYPE[typ].format(int.from_bytes(component[offset:], 'big'))
-    else:
-        ret = ""
-        if typ != TYPE_GENERIC:
-            ret = f"{typ}="
+    if typ in ALTERNATE_URI_TYPE:
+        try:
+            return ALTERNATE_URI_TYPE[typ].format(int.from_bytes(component[offset:], 'big'))
+        except ValueError:
+            # Too many digits for Python's int to str conversion (a value of some 1800 octets or more):
+            # such a component is written in the generic form below
+            pass
+    ret = ""
+    if typ != TYPE_GENERIC:
+        ret = f"{typ}="
 
-        def decode(val: int) -> str:
-            ret = chr(val)
-            if ret in CHARSET and ret not in {'%', '='}:
-                return ret
-            else:
-                return f"%{val:02X}"
+    def decode(val: int) -> str:
+        ret = chr(val)
+        if ret in CHARSET and ret not in {'%', '='}:
+            return ret
+        else:
+            return f"%{val:02X}"
 
-        return ret + "".join(decode(val) for val in component[offset:])
+    return ret + "".join(decode(val) for val in component[offset:])
 
 
 def to_canonical_uri(component: BinaryStr) -> str:
